@@ -253,8 +253,18 @@ Lines == CASE LineFam = "q" -> LinesQ
 VARIABLES tb, line, st
 vars == <<tb, line, st>>
 
+\* Names that can occur as a token while `line` is processed with `tb` (an
+\* over-approximation: closure of the line's tokens under "value of").  An
+\* alias outside it cannot influence the processing, so with Prune such
+\* (table, line) pairs are represented by the table without that alias.
+RECURSIVE Reach(_, _, _)
+Reach(t, S, n) == IF n = 0 THEN S
+                  ELSE Reach(t, S \cup UNION {{t[m].toks[j] : j \in 1..Len(t[m].toks)} : m \in S \cap DOMAIN t}, n - 1)
+LineToks(l) == {l[i] : i \in 1..Len(l)}
+
 Init == /\ tb \in Tables
         /\ line \in Lines
+        /\ Prune => DOMAIN tb \subseteq Reach(tb, LineToks(line), N)
         /\ st = InitSt(line)
 
 Subst  == /\ ~Done(st)
